@@ -421,3 +421,23 @@ pub fn gen_chain(rng: &mut Rng, now: Ts, len: usize, objs: usize) -> World {
     }
     w
 }
+
+/// Adds a child CA below `parent`, published in `repo`, with `objs` objects.
+pub fn add_child(w: &mut World, rng: &mut Rng, parent: usize, repo: usize, objs: usize) -> usize {
+    let id = w.cas.len();
+    let now = w.now;
+    let mut c = w.cas[parent].clone();
+    c.id = id; c.parent = Some(parent); c.repo = repo; c.objects = Vec::new(); c.extra_blocks = Vec::new();
+    c.point_faults = Vec::new(); c.unreachable = false; c.alias_of = None; c.slash0 = false;
+    // a key not yet on the chain to the root
+    let mut used: Vec<usize> = vec![w.cas[parent].key];
+    let mut p = parent; while let Some(pp) = w.cas[p].parent { used.push(w.cas[pp].key); p = pp; }
+    let mut key = (id * 7 + 3) % super::keys::CA_KEYS;
+    while used.contains(&key) { key = (key + 1) % super::keys::CA_KEYS; }
+    c.key = key;
+    w.cas.push(c);
+    let serial = 5000 + id as u64;
+    w.cas[parent].objects.push(Obj { name: format!("ca{id}.cer"), kind: ObjKind::ChildCa(id), serial, nb: now - DAY, na: now + 60 * DAY, fault: None, salt: 0 });
+    for k in 0..objs { let o = gen_object(rng, now, id, &[id], k, 100 + k as u64); w.cas[id].objects.push(o); }
+    id
+}
